@@ -476,11 +476,33 @@ def oracle(sc, obs):
                 continue         # may have been suppressed as a duplicate question
             out.append(("C18:omitted-unheld", "query #%d (%s) omits the type-%d question for %s although no unstale answer is held"
                         % (i + 1, "QU" if b["asked"] == 1 else "QM", qtype, qname)))
+    # --- a lookup that was sent an unexpired address of its host before its deadline succeeds (D22 / D15): the lookup failed, ended
+    #     with host H, and an unexpired address record of H was handed to it (an `update` block) before it returned, in the datagram
+    #     that taught it H or in a later one
+    lost = None
+    if obs["result"] is False and fin["server_key"] is not None:
+        H = fin["server_key"]
+        iH = None
+        for i in range(len(blocks) - 1, -1, -1):
+            if blocks[i]["fields"]["server_key"] == H:
+                iH = i
+            else:
+                break
+        if iH is not None:
+            # only records handed over in the block that taught it the host, or later: an address that came in an earlier
+            # datagram is the cache reload's business (checked by the model / C18_reload_all on that block's cache snapshot)
+            for b in blocks[iH:]:
+                if b["k"] != "U" or b["now"] >= obs["t_ret"]:
+                    continue
+                for r in b["recs"]:
+                    if valid_addr(r) and r["type"] in (1, 28) and r["cls"] == 1 and r["name"].lower() == H and not expired(r, b["now"]):
+                        lost = (r["addr"], b["now"] - obs["t0"])
+    if lost is not None:
+        out.append(("C18:address-before-srv-lost", "address %s of the service's host was delivered to the lookup %d ms after its start, unexpired, "
+                    "yet it returned False at %d ms without any address (the address record preceded the SRV record in its datagram: it was "
+                    "dropped while the host was unknown, and the SRV branch re-read a cache that did not hold it yet)"
+                    % (lost[0], lost[1], obs["t_ret"] - obs["t0"])))
     # --- with a responder that answers every question, the questions the lookup must ask lead to success
-    if sc.get("liveness") and obs["result"] is not True and sc["responder"].get("extra") == "addr-first":
-        out.append(("C18:address-before-srv-lost", "a responder answered the SRV question with one datagram carrying the host's address records "
-                    "before the SRV record; the lookup dropped the addresses (host unknown yet), never re-read them and failed at its timeout of %d ms "
-                    "with SRV and a live address in the cache" % timeout))
     elif sc.get("liveness") and obs["result"] is not True:
         out.append(("C18:responder-not-heard", "a responder owning the instance answered every question within %d ms, "
                     "yet the lookup failed at its timeout of %d ms" % (sc["responder"]["delay"], timeout)))
